@@ -13,8 +13,9 @@ workers = over.pop("workers", "16")
 if only:
     invs = re.search(r"(?m)^INVARIANTS (.*)$", cfg).group(1).split()
     props = re.search(r"(?m)^PROPERTIES (.*)$", cfg).group(1).split()
-    cfg = re.sub(r"(?m)^INVARIANTS .*$", "INVARIANTS " + (only if only in invs else ""), cfg)
-    cfg = re.sub(r"(?m)^PROPERTIES .*$", "PROPERTIES " + (only if only in props else ""), cfg)
+    sel = only.split(",")
+    cfg = re.sub(r"(?m)^INVARIANTS .*$", "INVARIANTS " + " ".join(x for x in invs if x in sel), cfg)
+    cfg = re.sub(r"(?m)^PROPERTIES .*$", "PROPERTIES " + " ".join(x for x in props if x in sel), cfg)
     cfg = re.sub(r"(?m)^(INVARIANTS|PROPERTIES) $", "", cfg)
 for k, v in over.items():
     cfg = re.sub(r'(?m)^(\s*%s\s*=\s*).*$' % re.escape(k), r'\g<1>' + v, cfg)
